@@ -98,7 +98,8 @@ def main(argv: list[str] | None = None) -> int:
         modname, cases, workers=workers,
         case_timeout=getattr(module, "CASE_TIMEOUT", 180.0),
         quiescence_after=getattr(module, "QUIESCENCE_AFTER", None),
-        env_extra=getattr(module, "ENV", None))
+        env_extra=getattr(module, "ENV", None),
+        rss_limit=getattr(module, "MEMORY_LIMIT", None))
     if hasattr(module, "finalize"):
         module.finalize(ctx, records)
 
